@@ -86,6 +86,25 @@ func tablesFamily(ctx *Ctx) error {
 		res.Violate(v)
 	}
 
+	// ---- categorisation is a function of the code: asked in descending order first (this process
+	// has not called it yet), then in random order, and below in ascending order; every answer for
+	// a code must be the same
+	var catFirst [65536]aucoalesce.AuditEventType
+	for t := 65535; t >= 0; t-- {
+		catFirst[t] = aucoalesce.GetAuditEventType(auparse.AuditMessageType(t))
+	}
+	catDiff := 0
+	for i := 0; i < 200000 && catDiff < 3; i++ {
+		t := ctx.Rng.Intn(65536)
+		if i%2 == 1 {
+			t = (t & 0x0fff) | ctx.Rng.Intn(16)<<12 // codes that share their low bits
+		}
+		if c := aucoalesce.GetAuditEventType(auparse.AuditMessageType(t)); c != catFirst[t] {
+			catDiff++
+			monitor(fmt.Sprintf("C20: record type %d was categorised as %d and, asked again after other codes, as %d", t, catFirst[t], c), TCase{Table: "msgtype", Key: strconv.Itoa(t)}, "")
+		}
+	}
+
 	// ---- record types ---------------------------------------------------------------
 	names := map[string]bool{}
 	for t := 0; t < 65536; t++ {
@@ -109,8 +128,11 @@ func tablesFamily(ctx *Ctx) error {
 		}
 		// categorisation: same on every call, and as the model's first-match reading of the switch
 		c1, c2 := aucoalesce.GetAuditEventType(typ), aucoalesce.GetAuditEventType(typ)
-		if c1 != c2 {
-			monitor(fmt.Sprintf("C20: record type %d categorised as %d and then as %d", t, c1, c2), c, "")
+		if c1 != c2 || c1 != catFirst[t] {
+			if catDiff < 3 {
+				catDiff++
+				monitor(fmt.Sprintf("C20: record type %d categorised as %d, then %d and %d on later calls", t, catFirst[t], c1, c2), c, "")
+			}
 		}
 		add("tab category "+strconv.Itoa(t), strconv.Itoa(int(c1)), c, c1 != 0)
 	}
